@@ -2,7 +2,18 @@ use crate::core::Property;
 
 pub mod c06;
 pub mod c07;
+pub mod c15_16;
+pub mod indic;
 
 pub fn registry() -> Vec<Box<dyn Property>> {
-    vec![Box::new(c06::C06), Box::new(c07::C07)]
+    vec![
+        Box::new(c06::C06),
+        Box::new(c07::C07),
+        Box::new(indic::C08),
+        Box::new(indic::C09),
+        Box::new(indic::C10),
+        Box::new(indic::C11),
+        Box::new(c15_16::C15),
+        Box::new(c15_16::C16),
+    ]
 }
